@@ -2054,5 +2054,6 @@ func main() {
 	if on('U') {
 		sectionU(run, r.Fork(8), tmp)
 	}
+	sectionK(run, r.Fork(11), tmp, on('K')) // Section K (diskhist.go): digest histories on the disk backend, own stream, `--only 6000000+i`
 	run.Finish()
 }
